@@ -253,7 +253,7 @@ def _periodic_variants():
     out = {}
     for guard, mono, truth in itertools.product((False, True), repeat=3):
         wrap = ("_is_true(", ")") if truth else ("", "")
-        for clear, exc in ((False, None), (True, ""), (True, " BaseException"), (True, " Exception")):
+        for clear, exc, base in ((False, None, False), (True, "", True), (True, " BaseException", True), (True, " Exception", False)):
             src = _PERIODIC_TMPL % {
                 "ninit": "    n = 1" if mono else "",
                 "nonlocal": "        nonlocal n" if mono else "",
@@ -261,13 +261,13 @@ def _periodic_variants():
                 "guard": _GUARD if guard else "",
                 "rearm": _REARM_MONO if mono else (_REARM_LATER % ()),
             }
-            out[_norm_src(src)] = (guard, clear, mono, truth)
+            out[_norm_src(src)] = (guard, clear, base, mono, truth)
     return out
 
 
 def read_flags():
     """-> dict(shape_ok, guard, clear, mono, resolve, why)"""
-    res = {"shape_ok": False, "guard": False, "clear": False, "mono": False, "truth": False, "resolve": False, "why": []}
+    res = {"shape_ok": False, "guard": False, "clear": False, "clear_base": False, "mono": False, "truth": False, "resolve": False, "why": []}
 
     def timer_side():
         m = astlib.module("klongpy/sys_fn_timer.py")
@@ -275,7 +275,7 @@ def read_flags():
         got = _periodic_variants().get(norm(per))
         if got is None:
             raise ShapeError("_call_periodic / run is none of the accepted shapes")
-        if got[3]:
+        if got[4]:
             # the truth test is applied inside the try, so a failure of the test itself also clears the delegate
             if norm(astlib.find_func(m, "_is_true")) != _norm_src(_IS_TRUE_SRC):
                 raise ShapeError("_is_true changed")
@@ -333,7 +333,7 @@ def read_flags():
     if t is None:
         res["why"].append(why)
     else:
-        res["guard"], res["clear"], res["mono"], res["truth"] = t
+        res["guard"], res["clear"], res["clear_base"], res["mono"], res["truth"] = t
     w, why = astlib.try_flag(wrapper_side)
     if w is None:
         res["why"].append(why)
@@ -394,6 +394,9 @@ def generate():
     out.append("Definition timer_has_no_name_registry : bool := %s." % astlib.coq_bool(bool(reg)))
     out.append("Definition gen_guard : bool := %s." % astlib.coq_bool(f["guard"]))
     out.append("Definition gen_clear : bool := %s." % astlib.coq_bool(f["clear"]))
+    # the class named by the except clause that marks the timer dead: BaseException (or bare) also covers SystemExit (.x),
+    # KeyboardInterrupt and asyncio.CancelledError; `except Exception` does not
+    out.append("Definition dead_timer_cleared_on_base_exception : bool := %s." % astlib.coq_bool(f["clear_base"]))
     out.append("Definition gen_mono : bool := %s." % astlib.coq_bool(f["mono"]))
     out.append("Definition gen_truth : bool := %s." % astlib.coq_bool(f["truth"]))
     out.append("Definition gen_resolve : bool := %s." % astlib.coq_bool(f["resolve"]))
@@ -479,7 +482,13 @@ class VLoop:
             self.cur = h
             try:
                 h.cb(*h.args)
-            except Exception as e:   # asyncio: call_exception_handler
+            except (SystemExit, KeyboardInterrupt) as e:
+                # Handle._run re-raises these: they leave _run_once (and run_forever); the rest of the batch stays queued.
+                # The driver notes them and goes on with the next iteration, as a host that restarts the loop would
+                self.errors.append(type(e).__name__)
+                self.cur = None
+                return True
+            except BaseException as e:   # asyncio: call_exception_handler (CancelledError included)
                 self.errors.append(type(e).__name__)
             self.cur = None
         return True
@@ -547,7 +556,11 @@ class RLoop(asyncio.SelectorEventLoop):
 
     def run_once(self):
         self.idle = False
-        self._run_once()
+        try:
+            self._run_once()
+        except (SystemExit, KeyboardInterrupt) as e:     # re-raised by asyncio's Handle._run
+            self.errors.append(type(e).__name__)
+            return True
         return not self.idle
 
 
@@ -707,7 +720,15 @@ def impl_run(case, real=False):
             redefine(arg)
         elif act == 3:
             trace.append([2, i, units(loop.now), 2])
-            raise ScriptRaise("scripted")
+            if arg == 0:
+                raise ScriptRaise("scripted")
+            if arg == 1:
+                raise asyncio.CancelledError()
+            if arg == 2:
+                if named:
+                    klong('.x(0)')          # Klong's Exit: SystemExit
+                raise SystemExit(0)
+            raise KeyboardInterrupt()
         elif act == 4 and pool:
             create(*pool.pop(0))
         elif act == 5:
@@ -775,7 +796,7 @@ def dur_values(y):
 
 def single_cases(tier, named):
     """one timer: every script up to length 2 (3 in thorough) over a small alphabet x intervals x latency class x resolution"""
-    acts = [(0, 0), (1, 0), (3, 0)] + ([(2, 0)] if named else [])
+    acts = [(0, 0), (1, 0), (3, 0), (3, 2)] + ([(2, 0)] if named else [])
     maxlen = 2 if (tier == "quick" or named) else 3
     for y in INTERVALS:
         durs = dur_values(y)[:4] if tier == "quick" else dur_values(y)
@@ -820,7 +841,7 @@ def random_case(rng, named, big=False):
             elif p < 0.92:
                 a, g = (5, rng.randint(0, nt - 1)) if named else (0, 0)
             else:
-                a, g = 3, 0
+                a, g = 3, rng.choice([0, 0, 1, 2, 3])
             steps.append((d, r, a, g))
         gap = rng.choice([0, 0, 1, U // 2, U, rng.randint(0, 2 * U)])
         timers.append((gap, y, steps))
@@ -915,6 +936,28 @@ WITNESS["same-name"] = {"mode": "py", "res": 1024, "lifo": 0, "t0": 0, "exts": [
                         "lats": [], "fuel": 20, "kind": "witness-samename"}
 
 
+WITNESS["base-exception"] = {"mode": "klong", "res": 1024, "lifo": 0, "t0": 0, "exts": [(3 * U, 0, 0)],
+                             "timers": [(0, 1, [(0, 1, 3, 2)])], "lats": [], "fuel": 8, "kind": "witness-raise"}
+
+
+def raise_cases(named):
+    """a callback leaves through an Exception / asyncio.CancelledError / SystemExit (.x(0) from Klong) / KeyboardInterrupt,
+    at its first or second tick, alone or next to a second timer due at the same instant (SystemExit and KeyboardInterrupt
+    end the loop's batch); .timerc on the dead timer and on the other one follows, then more loop iterations"""
+    for y in INTERVALS:
+        for kind in (0, 1, 2, 3):
+            for first in (True, False):
+                for other in (None, y, 1):
+                    for lat in (0, 7):
+                        steps = ([] if first else [(0, 1, 0, 0)]) + [(U // 4, 1, 3, kind), (0, 1, 0, 0)]
+                        timers = [(0, y, steps)]
+                        if other is not None:
+                            timers.append((0, other, [(0, 1, 0, 0)] * 3 + [(0, 0, 0, 0)]))
+                        yield {"mode": "klong" if named else "py", "res": 1024, "lifo": 0, "t0": 11,
+                               "exts": [(4 * U, 0, 0), (4 * U + 1, 0, 0), (6 * U, 0, 1)], "timers": timers, "lats": [lat] * 3,
+                               "fuel": 30, "kind": "raise-%d" % kind}
+
+
 def same_name_cases(named):
     """two or three timers alive at once under ONE name: same / different intervals, started at set-up, later from an
     external point of view (gap) or from inside a callback, in one interpreter or (python callbacks) in two"""
@@ -946,6 +989,8 @@ def build_cases(chk, rng):
         yield c
     for named in (False, True):
         for c in same_name_cases(named):
+            yield c
+        for c in raise_cases(named):
             yield c
     for named in (False, True):
         for c in retval_cases(named):
@@ -1097,7 +1142,7 @@ def run(tier, replay=None):
     fl = chk.run_model(["(flags)"])[0]
     flags = tuple(bool(x) for x in fl)
     src = read_flags()
-    if flags != (src["guard"], src["clear"], src["mono"], src["truth"], src["resolve"]):
+    if flags != (src["guard"], src["clear"], src["clear_base"], src["mono"], src["truth"], src["resolve"]):
         raise RuntimeError("extracted model was not built from the current Generated.v")
 
     bad_prop = None
